@@ -82,13 +82,16 @@ def glue(chk):
 def _replay_roundtrip():
     return '''
 from hiten.system import System
-s = System.from_bodies("earth", "moon"); cm = s.get_libration_point(1).get_center_manifold(degree=6); cm.compute()
+N = 6
+s = System.from_bodies("earth", "moon"); cm = s.get_libration_point(1).get_center_manifold(degree=N); cm.compute()
 errs = []
-for r in (2e-2, 1e-2):
-    pt = r * np.array([0.3, -0.5, 0.4, 0.2])
-    back = cm.to_cm(cm.to_synodic(pt)) if hasattr(cm, "to_cm") else cm.dynamics.synodic_to_cm(cm.dynamics.cm_point_to_synodic(pt, energy=None))
+for r in (8e-2, 4e-2):
+    pt = r * np.array([0.3, -0.5, 0.4, 0.2])      # generic, non-planar
+    back = cm.to_cm(cm.to_synodic(pt))
     errs.append(float(np.max(np.abs(back - pt))))
-_verdict(errs[1] > 1e-9 and errs[0] / max(errs[1], 1e-300) < 2.0 ** 4, errors=errs)
+order = float(np.log2(errs[0] / max(errs[1], 1e-300)))
+# the round trip must be the identity up to O(r^(N+1)): halving r divides the error by 2^(N+1); a wrong inverse shows a low order
+_verdict(errs[1] > 1e-13 and order < N - 0.5, errors=errs, observed_order=order, required_order=N + 1)
 '''
 
 
